@@ -51,6 +51,10 @@ HARNESSES = [
       cost=60, strength="F in wrapper state, flags, flush, engine results; B(in<=3,out<=3 bytes => loop<=8 iterations, unwinding assertion on)",
       note="decompress replaced by contract model M-decompress (clauses: counts<=offered, starved statuses truthful, HasMoreOutput only when window full, no BadParam on valid geometry)"),
     H("k_push_dict_out", "K-inflate", ["C05", "C07", "C08", "C13"], fns=["push_dict_out"], cost=20, strength="F in ring state; B(out<=4 bytes)"),
+    # ---- K-deflate (streaming wrapper against the M-compress contract model) ----
+    H("k_deflate_protocol", "K-deflate", ["C02", "C12", "C14"], fns=["deflate", "TDEFLFlush::from(MZFlush)"], cost=40,
+      strength="F in wrapper state, flush, engine results; B(in<=3,out<=3 bytes; loop unwinding assertion on)",
+      note="compress replaced by contract model M-compress (proved by K-dispatch: counts<=offered, Done only after Finish, status latched; assumed: progress - Okay with output space and work left moved at least one byte)"),
     # ---- K-lenDist ----
     H("k_lz_one_match_roundtrip", "K-lenDist", ["C01", "C02", "C10"], cost=40,
       fns=["record_match", "compress_lz_codes", "LZOxide::new", "LZOxide::write_code", "LZOxide::init_flag", "LZOxide::get_flag",
